@@ -147,8 +147,9 @@ def apply_pre(coll, pdf, pre, names, n=None, method=None, tag="w", blockwise=Fal
         aux[tag] = 0
         out = coll.merge(ddm.from_pandas(aux, npartitions=2, sort=False), on=cols, how="inner", broadcast=False, shuffle_method=method, npartitions=n)
     elif how == "groupby":
-        rest = [c for c in pdf.columns if c not in cols]
-        out = coll.groupby(cols, dropna=False, sort=False).agg({c: "first" for c in rest}, split_out=n or 2).reset_index()[list(pdf.columns)]
+        rest = [c for c in pdf.columns if c not in cols] + [tag + "g"]          # (a constant column: there is always something to aggregate)
+        out = coll.assign(**{tag + "g": 0}).groupby(cols, dropna=False, sort=False).agg({c: "first" for c in rest}, split_out=n or 2)
+        out = out.reset_index()[list(pdf.columns)]
     elif how == "setindex":
         # (no npartitions=: set_index(npartitions=n) reports n partitions whatever it builds - the finding C41 'set_index:auto:count')
         out = coll.assign(**{tag + "ix": coll[cols[0]]}).set_index(tag + "ix", shuffle_method=method)
